@@ -100,6 +100,8 @@ def run(prop, tier):
     for _ in range((4000 if quick else 60000) if helper_ok else 0):
         d = r.choice([r.uniform(0, 10), r.randint(0, 5000) / 1000, r.randint(1, 50) * r.choice([0.01, 0.05, 0.1, 0.02]), 0.0, -0.1, 1e-12, 5])
         w = r.choice([0.01, 0.05, 0.1, 0.02, 0.03, r.uniform(0.001, 0.5), 1 / 3, 0.0, -0.01, 0.016, 512 / 16000])
+        if r.random() < 0.05:
+            d, w = r.randint(0, 40), r.randint(1, 7)        # both given as ints
         rn = r.choice([0, 1]); ek = r.choice([0, 1, 2])
         try:
             got = [0, core._duration_to_nb_windows(d, w, math.ceil if rn else math.floor, [0, eps, -eps][ek])]
@@ -127,6 +129,10 @@ def run(prop, tier):
             if r.random() < 0.3 and aw > 0:
                 # durations that are whole multiples of the window (quotients that are integers up to float noise)
                 mind = r.randint(1, 6) * aw; maxd = r.randint(1, 12) * aw; sil = r.randint(0, 5) * aw
+            elif r.random() < 0.12:
+                # whole numbers of seconds given as Python ints (or bools), window included: 3 s with a 2 s window is still ceil(3/2) = 2 windows
+                mind = r.choice([r.randint(1, 7), True]); maxd = r.randint(1, 12); sil = r.choice([r.randint(0, 4), False])
+                aw = r.randint(1, 3); rate = r.choice([1, 2, 10])
             use_reader = r.random() < 0.25
             captured.clear()
             if use_reader:
@@ -187,11 +193,56 @@ def run(prop, tier):
             meta.append({"split": {"min_dur": mind, "max_dur": maxd, "max_silence": sil, "analysis_window": (W / rate if use_reader else aw), "rate": rate, "AudioReader_input": use_reader}})
     finally:
         core.StreamTokenizer = real_tok
+    # ---- "reported once it spans ceil(min_dur/w) windows ... a shorter final window at end of stream": an input that IS the burst,
+    # exactly as long as min_dur, one window shorter, or completed by a partial last window -- as bytes, as an AudioRegion, through
+    # the method, alone and followed by silence
+    n_boundary = 0
+    for _ in range(120 if quick else 1500):
+        rate = r.choice([100, 1000, 8000, 16000, 22050, 44100, 48000])
+        W = r.choice([1, 2, 7, 10, 80, 160, 441])
+        aw = W / rate
+        if int(aw * rate) != W:
+            continue
+        k = r.randint(1, 6)
+        mind = r.choice([k * aw, k * W / rate, (k - 0.5) * aw, round(k * W / rate, 6)])
+        nmin = exact_count(mind, Fraction(W, rate), True)
+        if nmin is None or mind <= 0:
+            continue
+        nmin = max(nmin, 1)
+        shapes = [nmin * W, (nmin - 1) * W, nmin * W + 1]
+        if W > 1:
+            shapes.append((nmin - 1) * W + r.randint(1, W - 1))
+        n = r.choice(shapes)
+        tail = r.choice([0, 0, W, 2 * W + 1])
+        data = b"\x10\x27" * n + b"\0\0" * tail
+        nw = -(-n // W)
+        want = [[0, 2 * min(nw * W, n + tail)]] if (nw >= nmin and n > 0) else []      # (windows are aligned on the input: the last one may take in silent samples)
+        kw = dict(min_dur=mind, max_dur=(nmin + 4) * aw, max_silence=0, analysis_window=aw)
+        for how in ("bytes", "AudioRegion", "AudioRegion.split", "AudioRegion carrying a start"):
+            try:
+                if how == "bytes":
+                    regs = list(au.split(data, sr=rate, sw=2, ch=1, **kw))
+                elif how == "AudioRegion":
+                    regs = list(au.split(au.AudioRegion(data, rate, 2, 1), **kw))
+                elif how == "AudioRegion.split":
+                    regs = list(au.AudioRegion(data, rate, 2, 1).split(**kw))
+                else:
+                    regs = list(au.split(au.AudioRegion(data, rate, 2, 1, 3.5), **kw))
+                got = [[int(round(x.start * rate)) * 2, len(x.data)] for x in regs]
+            except Exception as e:
+                got = "raised %s" % type(e).__name__
+            n_boundary += 1
+            if viol is None and got != want:
+                viol = {"what": "split() of a %d-sample loud burst%s at %d Hz (%s input), window %d samples, min_dur=%r (= %d windows): regions (byte offset, bytes) %r, the statement requires %r "
+                                "(the burst spans %d window(s), the last one %s)" % (n, " followed by %d silent samples" % tail if tail else " that is the whole input", rate, how, W, mind, nmin, got, want,
+                                                                                  nw, "partial" if n % W else "full"),
+                        "rate": rate, "window_samples": W, "min_dur": mind, "burst_samples": n, "silent_tail_samples": tail, "input": how, "parameters": {k_: repr(v_) for k_, v_ in kw.items()}}
+    res.notes["boundary_bursts"] = n_boundary
     outs = C.model_eval(cases)
     mism = [(m, i, o) for m, i, o in zip(meta, impl, outs) if i != o and not (i[0] == 1 and o[0] == 1 and {i[1], o[1]} <= {1, 9})]
     vm = C.vm_crosscheck(cases, outs, "C06", 25)
     acc = sum(1 for o in outs if o[0] == 0)
-    res.coverage.update({"evaluations": len(cases) + n_grid, "distinct_nontrivial": len({C.dumps(c) for c, o in zip(cases, outs) if o[0] == 0 and o[1] != 0}),
+    res.coverage.update({"evaluations": len(cases) + n_grid + n_boundary, "distinct_nontrivial": len({C.dumps(c) for c, o in zip(cases, outs) if o[0] == 0 and o[1] != 0}),
                          "rule": "bit-exact comparison with the Flocq model of _duration_to_nb_windows on seeded random doubles (incl. quotients not representable in binary) and of split()'s derived (min_length, max_length, max_silence, block size) or ValueError, for bytes and AudioReader inputs (%d accepted, %d rejected); exact integer oracle ceil/floor on the millisecond grid; non-trivial = distinct accepted case with a non-zero result" % (acc, len(outs) - acc),
                          "samples": [{"case": meta[3], "model": outs[3]}, {"case": meta[-3], "model": outs[-3]}],
                          "vm_compute_crosschecked": vm, "correspondence_mismatches": len(mism), "tie_translation": tie["detail"][:300],
